@@ -1262,9 +1262,12 @@ class Sim:
                 http500 = True
                 self.note_internal_error(dst, 'xmlrpc:' + method, tb)
             self._wire(rec, params)
+            # the RPC handler and the rest of the supervisord loop iteration (transitions, reap, tick) are distinct
+            # handlers: observers see the state between them
+            self._after_event(dst, 'rpc')
             if dst.alive:
                 dst.loop_tail()
-        self._after_event(dst, 'rpc')
+        self._after_event(dst, 'tail')
         if http500:
             raise xc.ProtocolError('sim', 500, 'Internal Server Error', {})
         if verdict == 'resp_lost':
